@@ -3,6 +3,7 @@ package main
 import (
 	"fmt"
 	"go/token"
+	"sort"
 	"strings"
 
 	"golang.org/x/tools/go/ssa"
@@ -29,6 +30,7 @@ func runC17(c *Ctx) {
 	c.Rule("C17.R3", "retry is decided before the response is marked started; reset retries only before the response started", 5)
 	c.Rule("C17.R4", "retry budget checked and decremented on every retry decision; single writer", 4)
 	c.Rule("C17.R5", "a retry re-selects the host and builds a fresh upstream request", 3)
+	c.Rule("C17.R7", "one global deadline per request: armed at first send with GlobalTimeout, never re-armed by a retry; per-try timer per attempt", 3)
 	c.Rule("C17.R6", "timeout sources applied lowest priority first; default only when zero", 4)
 	c.NotDecided = append(c.NotDecided, "header values, regex rewrites and URL composition on concrete inputs", "retry-on condition tables (status code lists) on concrete responses")
 
@@ -387,6 +389,56 @@ func runC17(c *Ctx) {
 			}
 		}
 		c.Check("C17.R5", fk+":no-host-replies", fn.Pos(), okFail, "when no host can be selected the retry ends with an error reply", "a retry without an available host does not end in an error reply")
+	}
+
+	// R7: one global deadline per request: armed when the request has been sent, never re-armed by a retry
+	{
+		timerStores := func(fs map[*ssa.Function]bool) (arms []*ssa.Store) {
+			var list []*ssa.Function
+			for f := range fs {
+				list = append(list, f)
+			}
+			sort.Slice(list, func(i, j int) bool { return list[i].String() < list[j].String() })
+			for _, f := range list {
+				for _, st := range storesToField(f, ".downStream", "responseTimer", false) {
+					if !isNilConst(st.Val) {
+						arms = append(arms, st)
+					}
+				}
+			}
+			return
+		}
+		sent := c.M(pp, "downStream", "onUpstreamRequestSent")
+		retry := c.M(pp, "downStream", "doRetry")
+		if sent == nil || retry == nil {
+			c.Unresolved("C17.R7", "downStream.onUpstreamRequestSent / doRetry")
+		} else {
+			arms := timerStores(staticReach([]*ssa.Function{sent}, pp))
+			okArm := false
+			for _, st := range arms {
+				if call, ok := st.Val.(*ssa.Call); ok && methodName(call.Common()) == "NewTimer" && len(call.Call.Args) > 0 {
+					if _, f, _, okf := loadedFieldOrField(call.Call.Args[0]); okf && f == "GlobalTimeout" {
+						okArm = true
+					}
+				}
+			}
+			c.Check("C17.R7", funcKey(sent)+":arms-global-deadline", sent.Pos(), okArm && len(arms) == 1, "the global timer is created once, with the resolved GlobalTimeout, when the request has been sent", "the request-sent path does not arm exactly one global timer with timeout.GlobalTimeout")
+			re := timerStores(staticReach([]*ssa.Function{retry}, pp))
+			pos := retry.Pos()
+			if len(re) > 0 {
+				pos = re[0].Pos()
+			}
+			c.Check("C17.R7", funcKey(retry)+":retry-keeps-global-deadline", pos, len(re) == 0, "a retry arms only the per-try timer; the global deadline keeps running from the first send", "a retry re-arms the global response timer: every retry restarts the configured timeout from zero, so the request is no longer ended at the configured deadline")
+			per := 0
+			for f := range staticReach([]*ssa.Function{retry}, pp) {
+				for _, st := range storesToField(f, ".downStream", "perRetryTimer", false) {
+					if !isNilConst(st.Val) {
+						per++
+					}
+				}
+			}
+			c.Check("C17.R7", funcKey(retry)+":retry-arms-per-try-timer", retry.Pos(), per >= 1, "each retry gets its own per-try timer", "a retry does not arm the per-try timer")
+		}
 	}
 
 	// R6
